@@ -254,7 +254,21 @@ class TlcResult:
 _tlc_seq = [0]
 
 
-def tlc(spec, cfg=None, workers=None, timeout=600, env=None, simulate=None, depth=None, seed=None,
+def tlc(*args, **kw):
+    """_tlc_once, repeated (at most twice, after a pause) when the JVM was killed from outside (SIGKILL before its time limit: the
+    kernel's out-of-memory killer on a machine shared with other memory-hungry jobs).  A kill says nothing about the model."""
+    timeout = kw.get("timeout", 600)
+    for attempt in range(3):
+        r = _tlc_once(*args, **kw)
+        killed = r.rc == -9 or (r.rc == 137 and r.wall < 0.9 * timeout)
+        if not killed or attempt == 2:
+            return r
+        print("[verif] TLC was killed from outside after %.0f s (memory pressure?): waiting, then running it again (%d)" % (r.wall, attempt + 1), flush=True)
+        time.sleep(45 * (attempt + 1))
+    return r
+
+
+def _tlc_once(spec, cfg=None, workers=None, timeout=600, env=None, simulate=None, depth=None, seed=None,
         xss=None, xmx="8g", emit_to=None, coverage=False, dfs=False, extra=(), keep_lines=400, cwd=None,
         emit_filter=None):
     """Run TLC on spec/<spec>.tla with spec/<cfg>.  Lines that start with '"' (produced by PrintT(ToJson(..)))
